@@ -255,6 +255,11 @@ func compile(patterns []string, mode Mode) (*regexp.Regexp, error) {
 							if j := strings.Index(pat[2:], pat[1:2]+"]"); j != -1 {
 								w = j + 4
 								if pat[1] == ':' {
+									if pat[2] == '^' {
+										// the negated class of package
+										// regexp is not a class name
+										return nil, &syntax.Error{Code: syntax.ErrInvalidCharRange, Expr: pat[:w]}
+									}
 									b.WriteString(pat[:w])
 									break
 								}
